@@ -36,11 +36,11 @@ def tla_set(xs):
 def write_cfgs(k, thorough):
     """Generated instantiations of the model from the code's constants."""
     consts = "".join("  %s = %d\n" % (n, k[n]) for n in NAMES)
-    w = 6 if thorough else 2
+    w = 10 if thorough else 2
     off_final = [o for o in range(k["HFB"] + 1 - w, k["HFB"] + 1 + w + 2) if o >= 1]
     off_a = [o for o in range(k["LGP"] + 1 - w, k["LGP"] + 1 + w + 2) if o >= 1]
     # C (an LDK node) holds an HTLC only if it expires later than HFB + 1 blocks from now
-    off_b = list(range(k["HFB"] + 2, k["HFB"] + (6 if thorough else 4)))
+    off_b = list(range(k["HFB"] + 2, k["HFB"] + (8 if thorough else 4)))
     deltas = list(range(k["MIND"], k["MIND"] + 4))
     slack1 = list(range(0, 5 if thorough else 3))
     far = list(range(0, 3))
@@ -73,6 +73,11 @@ def to_engine(s, k):
     ed = H0 + s["offd"]
     c_holds = s["offd"] > k["HFB"] + 1
     mode, x = s["dn"], 0
+    if mode == "cell":
+        # the forward waited in B's holding cell until C answered at height x (or was refused at once)
+        x = (s["x"] - ed) if s["x"] >= 0 else 0
+        return {"role": "fwd", "offu": s["offu"], "offd": s["offd"], "d": s["d"], "up": s["up"], "dn": "cell", "x": x,
+                "claim": None, "c1": 1, "c2": 1, "heavy": False}
     if mode == "offchain":
         if s["dnres"] == "fulfilled":
             mode, x = ("honest", 0) if s["x"] == H0 else ("lastmoment", s["x"] - ed)
@@ -329,7 +334,8 @@ def run(tier, seed):
     else:
         vlib.require_coverage(r, ["MShow", "MRefuseFinal", "MForward", "MRefuseForward", "MAutoFail", "MFulfilUp",
                                   "MGoOnChainDn", "MGoOnChainUp", "MFailUpBuried", "MFailUpDn", "MClaim", "MClaimLate",
-                                  "MDnFulfil", "MDnFail", "MNewBlock"], "DeadlinesMC")
+                                  "MDnFulfil", "MDnFail", "MNewBlock", "MQueue", "MCellTimeout", "MCellRelease",
+                                  "MCellReleaseLate", "MDnFulfilCell", "MDnFailCell"], "DeadlinesMC")
     if not scripts:
         raise vlib.ToolError("the model produced no scenarios")
     # ---- 1b. thorough: the same races for unbounded heights (inductive invariant, Apalache)
@@ -340,8 +346,8 @@ def run(tier, seed):
         vlib.log("[apalache] %d obligations, %d as expected %s" % (len(obl), len(obl) - len(failed), failed or ""))
         if failed and not model_violation:
             raise vlib.ToolError("apalache: obligations not discharged although the bounded model holds: %s" % failed)
-    cheap, late, heavy, nclasses, nlate = pick_scripts(scripts, k, rng, 4000 if thorough else 300,
-                                                       9000 if thorough else 1100)
+    cheap, late, heavy, nclasses, nlate = pick_scripts(scripts, k, rng, 2500 if thorough else 300,
+                                                       6000 if thorough else 1100)
     conv = ([cex_script] if cex_script else []) + cheap + late + heavy
     spath = os.path.join(wd, "scripts.ndjson")
     with open(spath, "w") as f:
@@ -360,14 +366,14 @@ def run(tier, seed):
     # outcome table per (role, offset) and the vacuity guards: both sides of every boundary were seen
     stats = {"shown": 0, "refused_final": 0, "forwarded": 0, "refused_fwd": 0, "go_onchain_dn": 0, "go_onchain_up": 0,
              "fail_after_burial": 0, "claims_ok": 0, "claims_refused": 0, "autofail": 0, "c_claim_onchain": 0,
-             "success_confirmed": 0}
+             "success_confirmed": 0, "holding_cell_timeout": 0, "holding_cell_release": 0}
     table = {}
     cur = None
     for ln in open(tpath):
         e = json.loads(ln)
         ev = e["ev"]
         if ev == "case":
-            cur = {"role": e["role"], "h": e["h"], "decided": False}
+            cur = {"role": e["role"], "h": e["h"], "decided": False, "dn": e["dn"]}
         elif ev == "offer":
             cur["off"] = (e["eu"] - e["h"], (e["ed"] - e["h"]) if e["ed"] else 0)
         elif ev == "show":
@@ -377,9 +383,16 @@ def run(tier, seed):
         elif ev == "forward":
             stats["forwarded"] += 1
             cur["decided"] = True
-            table.setdefault("fwd eu-h=%d ed-h=%d" % cur["off"], set()).add("forwarded")
+            if cur["dn"] == "cell":
+                if e["h"] > cur["h"]:
+                    stats["holding_cell_release"] += 1
+            else:
+                table.setdefault("fwd eu-h=%d ed-h=%d" % cur["off"], set()).add("forwarded")
         elif ev == "resolve" and e["dir"] == "up" and e["kind"] == "fail":
-            if not cur["decided"]:
+            if not cur["decided"] and cur["dn"] == "cell" and e["h"] > cur["h"]:
+                cur["decided"] = True
+                stats["holding_cell_timeout"] += 1
+            elif not cur["decided"]:
                 cur["decided"] = True
                 if cur["role"] == "final":
                     stats["refused_final"] += 1
